@@ -92,7 +92,7 @@ def fm_family(name, maxmaps, src, tgt, varset, timeout=900, simulate=None, depth
         c["fam"] = name
         c["src"] = kind
         c["dst"] = dkind
-    flats = {t[0]: json.loads(t[1]) for t in run.tagged("SRCFLAT") if len(t) == 2}
+    flats = {("dst:" if kind == "dst" else "") + t[0]: json.loads(t[1]) for t in run.tagged("SRCFLAT") if len(t) == 2}
     return cases, run, flats
 
 
@@ -103,12 +103,22 @@ def fm_decorate(cases, rnd, ri, rs, twice_frac):
         # the pointer flavour cannot take a Dst VALUE as its whole input (statically rejected): value flavour for those
         c["tp"] = "map" if c.get("src") == "map" else "val" if whole or rnd.random() < 0.6 else "ptr"
         c["end"] = False
-        if c.get("dst", "struct") != "struct":
-            c["tp"] = {"maps": "dmaps", "mapa": "dmapa", "str": "dstr"}[c["dst"]]
-            c["end"] = rnd.random() < 0.5          # the successor is END itself in half of these cases
+        c["pt"], c["builds"] = "", 1
         # a second Compile is only tried where no run-time checker is involved: in stream mode both defects end in the same panic
         c["twice"] = (not c.get("chk")) and rnd.random() < twice_frac
         c["ri"], c["rs"] = ri, rs
+        if c.get("src") == "dst":
+            # source type == target type == VfmDst, with a PASS-THROUGH node next to the field mappings, compiled six times (the order in
+            # which a pass-through is typed follows map iteration): typed from START of a Workflow[VfmDst, string] with the mappings
+            # pointing into it / typed from its successor with the mappings pointing into it / typed from a struct predecessor with
+            # the mappings reading out of it.  (With DIFFERENT neighbour types the pinned tree types a pass-through from whichever
+            # neighbour comes first, mapped edge or not, and Compile fails in some builds: reported separately, see notes.)
+            c["pt"] = ("start", "in", "out")[rnd.randrange(3)]
+            c["tp"] = "val" if c["pt"] == "start" else "dsrc"
+            c["builds"], c["twice"], c["ri"], c["rs"] = 6, False, 6, 6
+        if c.get("dst", "struct") != "struct":
+            c["tp"] = {"maps": "dmaps", "mapa": "dmapa", "str": "dstr"}[c["dst"]]
+            c["end"] = rnd.random() < 0.5          # the successor is END itself in half of these cases
     return cases
 
 
@@ -121,11 +131,16 @@ def fm_check_mirror(lines, flats):
     seen = set()
     for ln in lines:
         d = json.loads(ln)
-        if (d["tp"], d["var"]) in seen or not d["outs"] or d["var"] not in flats or any(len(g["maps"]) == 0 for g in d["decl"]):
+        isdst = d.get("pt") == "start" or d["tp"] == "dsrc"
+        key = (d["tp"], d["var"], isdst)
+        if key in seen or not d["outs"] or any(len(g["maps"]) == 0 for g in d["decl"]):
             continue
-        seen.add((d["tp"], d["var"]))
+        fkey = "dst:full" if isdst else d["var"]
+        if fkey not in flats:
+            continue
+        seen.add(key)
         o = d["outs"][0]
-        want = {(p, k, v.replace("p1:", o["pred"] + ":")) for (p, k, v) in fm_entryset(flats[d["var"]])}
+        want = {(p, k, v.replace("p1:", o["pred"] + ":")) for (p, k, v) in fm_entryset(flats[fkey])}
         got = fm_entryset(o["flat"])
         if want != got:
             raise Inconclusive("harness value for variant %s differs from the model's SrcVal: only in model %s, only in harness %s" % (
@@ -158,6 +173,10 @@ def fm_classify(case, reason, line):
         return "overlap-order" if "overlap-accepted" in model else "overlap-accepted-unmodelled"
     if r in ("panic", "unexpected-error", "hang"):
         msg = fm_first_msg(line, scope, ("panic",) if r == "panic" else ("err",) if r == "unexpected-error" else ("hang",))
+        if case.get("pt") and ("but output is not a struct" in msg or "field not found" in msg or "unexpected input type. expected: *schema.StreamReader" in msg
+                               or "mismatched type" in msg):
+            # the value assembled for a field-mapped PASS-THROUGH node is not of the node's input type
+            return "passthrough-input-built-as-wrong-type(pt=%s)" % case["pt"]
         if case.get("twice") and ("unexpected input type. expected: map[string]interface" in msg or "converter" in msg):
             return "second-compile"
         if "unsupported chunk type: interface {}" in msg or "chunk type mismatch. expect: map[string]interface {}, got: interface {}" in msg:
@@ -236,6 +255,8 @@ def c15(tier, repo=None):
                 ("dst", 1, ["S", "AIS", "BPS", "Mk"], ["all"], ["nilB", "nokey"], {"dkind": "str"}),
                 # source paths through a NON-EMPTY interface type (struct field / map element), walkable and non-walkable implementations
                 ("yi", 2, ["YIS", "YMkIS", "S"], ["S", "AIS", "Xk"], ["Yptr", "Ystr", "Ynil"], {}),
+                # a pass-through typed from START (workflow input type VfmDst != output type string) receives the field mappings
+                ("pts", 2, ["S", "N", "AIS", "BPS", "Mk"], ["S", "N", "AIS", "AMk", "BPS", "MIkS", "Xk"], [], {"kind": "dst"}),
                 # whole-input AddInput (no mappings) before / after field mappings and next to another whole input, both orders
                 ("mw", 2, ["S", "W"], ["S", "AIS", "all"], [], {}),
                 # map[string]any predecessor, stream-native, dense or ONE KEY PER CHUNK; every mapping needs the run-time checker
@@ -251,6 +272,7 @@ def c15(tier, repo=None):
                 ("dma", 3, ["MA", "S", "AI", "M", "W"], ["all", "k"], [], {"dkind": "mapa"}),
                 ("dst", 1, ["S", "AIS", "BPS", "Mk"], ["all"], ["nilB", "nilBP", "nokey", "nilM"], {"dkind": "str"}),
                 ("yi", 3, ["YIS", "YMkIS", "S"], ["S", "AIS", "Xk"], ["Yptr", "Ystr", "Ynil"], {}),
+                ("pts", 3, ["S", "N", "AIS", "BPS", "Mk"], ["S", "N", "AIS", "AMk", "BPS", "MIkS", "Xk", "AI", "A"], [], {"kind": "dst"}),
                 ("mme", 3, ["S", "AIS", "N"], ["MMkPS", "MMkMk", "MMkIS", "MIkS", "MIkN"], [], {}),
                 ("mm", 3, FM_MAPSRC, FM_MAPTGT, [], {"kind": "map", "timeout": 1500}),
                 ("m3", 3, ["S", "AIS", "AX", "N", "AI"], ["AIS", "AMk", "AI", "A", "MIkS", "MIkN", "Xk", "Xkj", "all"], ["AXint"], {"timeout": 1500})]
@@ -286,6 +308,12 @@ def c15(tier, repo=None):
         obs[d["id"]] = d
     if set(obs) != set(by_id):
         raise Inconclusive("observation lines do not cover the cases: %d lines for %d cases" % (len(obs), len(by_id)))
+    infos = [b for b in res["bad"] if "INFO:" in str(b[2])]
+    if infos:
+        ex = obs[infos[0][0]]
+        log("  note: %d cases (pass-through flavour %s): Compile of the same workflow succeeded in some builds and failed in others - %s" % (
+            len(infos), sorted({obs[b[0]].get("pt") for b in infos}), ex["compile"]["msg"][:200]))
+        res["bad"] = [b for b in res["bad"] if "INFO:" not in str(b[2])]
     notes = [b for b in res["bad"] if "NOTE:" in str(b[2])]
     if notes:
         raise Inconclusive("%d cases hit a machinery note (%s), e.g. %s: %s" % (
@@ -327,7 +355,7 @@ def c15(tier, repo=None):
     code, n_new, n_known = verdict.finish()
     for sig, k in sorted(sig_count.items()):
         log("  rejected, reproduced: sig=%s %d cases" % (sig, k))
-    nontriv = len({json.dumps([c["decl"], c["var"], c["tp"], c["twice"]], sort_keys=True) for c in cases
+    nontriv = len({json.dumps([c["decl"], c["var"], c["tp"], c["twice"], c.get("pt"), c.get("end")], sort_keys=True) for c in cases
                    if sum(max(1, len(g["maps"])) for g in c["decl"]) >= 2 or c["var"] != "full"})
     some = vlib.sample(sorted(obs.keys()), 3)
     cov = {"states": states, "transitions": trans, "traces_validated_against_impl": len(obs),
@@ -340,7 +368,7 @@ def c15(tier, repo=None):
                    "mappings or a non-default variant" % (ri, rs),
            "exhaustive": exhaustive, "families": gen_stats, "runs_per_case": ri + rs,
            "trace_validation_states": res["states"], "rejected_case_reasons": len(bad), "confirmed": len(confirmed),
-           "signatures": sig_count, "known_findings": n_known, "drift": drift}
+           "signatures": sig_count, "known_findings": n_known, "drift": drift, "compile_outcome_unstable_cases": len(infos)}
     vlib.write_evidence("C15", tier, "model_checking", cov, assumptions=[
         "type universe: the fixed family VfmIn/VfmMid/VfmDst/VfmSrc (struct, pointer, map[string]string, map[string]struct, any), depth <= 3",
         "the empty target path (whole input) counts as a prefix of every path (FromField is documented as exclusive)",
